@@ -93,6 +93,12 @@ pub(crate) struct Start<Receiver: StartReceiver + Send> {
 
     /// The current frontier of the watermarks from the previous replicas.
     watermark_frontier: WatermarkFrontier,
+    /// An increase of the frontier caused by a replica ending its iteration, not yet announced.
+    /// It is emitted right before the next data element (or when the block goes idle and flushes),
+    /// unless a later watermark supersedes it.
+    pending_watermark: Option<crate::operator::Timestamp>,
+    /// The element held back while `pending_watermark` is being emitted.
+    stashed: Option<StreamElement<Receiver::Out>>,
 
     /// Whether the iteration has ended and the current block has to wait for the local iteration
     /// leader to update the iteration state before letting the messages pass.
@@ -113,6 +119,8 @@ impl<Receiver: StartReceiver + Send> Clone for Start<Receiver> {
             num_previous_replicas: self.num_previous_replicas,
             already_timed_out: self.already_timed_out,
             watermark_frontier: self.watermark_frontier.clone(),
+            pending_watermark: None,
+            stashed: None,
             wait_for_state: self.wait_for_state,
             state_lock: self.state_lock.clone(),
             state_generation: self.state_generation,
@@ -173,6 +181,8 @@ impl<Receiver: StartReceiver + Send> Start<Receiver> {
             already_timed_out: Default::default(),
 
             watermark_frontier: Default::default(),
+            pending_watermark: None,
+            stashed: None,
 
             wait_for_state: Default::default(),
             state_lock,
@@ -213,6 +223,11 @@ where
     fn next(&mut self) -> StreamElement<Receiver::Out> {
         let coord = self.coord.unwrap();
 
+        // the element that was held back to let the pending watermark pass first
+        if let Some(item) = self.stashed.take() {
+            return item;
+        }
+
         loop {
             // all the previous blocks sent an end: we're done
             if self.missing_terminate == 0 {
@@ -224,6 +239,7 @@ where
 
                 self.missing_flush_and_restart = self.num_previous_replicas;
                 self.watermark_frontier.reset();
+                self.pending_watermark = None;
                 // this iteration has ended, before starting the next one wait for the state update
                 self.wait_for_state = true;
                 self.state_generation += 2;
@@ -242,15 +258,23 @@ where
                             StreamElement::Watermark(ts) => {
                                 // update the frontier and return a watermark if necessary
                                 match self.watermark_frontier.update(sender, ts) {
-                                    Some(ts) => StreamElement::Watermark(ts), // ts is safe
+                                    Some(ts) => {
+                                        // ts is safe, and it supersedes a pending one
+                                        self.pending_watermark = None;
+                                        StreamElement::Watermark(ts)
+                                    }
                                     None => continue,
                                 }
                             }
                             StreamElement::FlushAndRestart => {
                                 // mark this replica as ended and let the frontier ignore it from now on
+                                // the other replicas are not held back by this one any more: if the
+                                // frontier advances, announce it before the next data element
                                 #[cfg(feature = "timestamp")]
+                                if let Some(ts) =
+                                    self.watermark_frontier.update(sender, Timestamp::MAX)
                                 {
-                                    self.watermark_frontier.update(sender, Timestamp::MAX);
+                                    self.pending_watermark = Some(ts);
                                 }
                                 self.missing_flush_and_restart -= 1;
                                 continue;
@@ -263,6 +287,15 @@ where
                                     self.missing_terminate
                                 );
                                 continue;
+                            }
+                            // (also when the block goes idle: the fake `FlushBatch` of a timeout)
+                            StreamElement::Item(_)
+                            | StreamElement::Timestamped(_, _)
+                            | StreamElement::FlushBatch
+                                if self.pending_watermark.is_some() =>
+                            {
+                                self.stashed = Some(item);
+                                StreamElement::Watermark(self.pending_watermark.take().unwrap())
                             }
                             _ => item,
                         }
